@@ -40,7 +40,7 @@ ASSUMPTIONS = [
   "all trees awake (make_data default) when islands are computed through forward() with sleeping enabled",
 ]
 EXHAUSTIVE = {"quick": True, "thorough": True}
-BUDGET = {"quick": dict(examples=320, seconds=150, workers=16), "thorough": dict(examples=12000, seconds=1500, workers=16)}
+BUDGET = {"quick": dict(examples=320, seconds=420, workers=16), "thorough": dict(examples=12000, seconds=1500, workers=16)}
 CHUNK = 1024
 NBITS = 14
 _CONTACT = (5, 6, 7)
